@@ -278,6 +278,12 @@ class Ref:
         if len(m) > 1:
             if tagged in m:
                 return {tagged}
+            if tagged is not None and all(issubclass(c, tagged) for c in m) \
+                    and not is_abstract(tagged) and self.matches(node, tagged):
+                # the same unpinned corner as below, with several candidates:
+                # the tag names a registered concrete ANCESTOR of all of
+                # them that itself matches
+                raise NoClaim('tag names a matching ancestor')
             if not node.tag.startswith('tag:yaml.org,2002'):
                 # a tag that names none of the candidates (an incompatible
                 # or unknown class): this hierarchy offers nothing -- which
